@@ -36,8 +36,22 @@ pub fn node_json(b: &CodeBlock, program: &Program, procs: &mut BTreeMap<String, 
         CodeBlock::Dyn(_) => json!({"k": "dyn", "h": digest_json(b.hash())}),
         CodeBlock::Span(s) => {
             let mut ops = vec![];
+            // procref / dynamic call targets: four consecutive pushes that form the root of a known code block
+            let mut pushed: Vec<Felt> = vec![];
             for batch in s.op_batches() {
                 for op in batch.ops() {
+                    if let Operation::Push(v) = op {
+                        pushed.push(*v);
+                        if pushed.len() >= 4 {
+                            let n = pushed.len();
+                            let d = vm_core::chiplets::hasher::Digest::new([pushed[n - 4], pushed[n - 3], pushed[n - 2], pushed[n - 1]]);
+                            if program.cb_table().has(d) {
+                                add_proc(d, program, procs);
+                            }
+                        }
+                    } else if !matches!(op, Operation::Noop) {
+                        pushed.clear();
+                    }
                     ops.push(match op {
                         Operation::Push(v) => json!({"o": "PUSH", "c": op.op_code(), "imm": [felt_to_limbs(*v)]}),
                         Operation::Assert(code) => json!({"o": "ASSERT", "c": op.op_code(), "imm": [], "err": code}),
